@@ -15,10 +15,34 @@ RULE = ("every loop / app / tame case is run on the real MainLoop and on the rea
         "non-trivial = a calm run with >= 6 events")
 
 
+def gen_flat(rnd, sid):
+    """a flat handler program on one level: handlers only enqueue (any priorities, incl. more urgent ones); both disciplines of Model/GLoop.lean apply"""
+    ncls = rnd.randint(1, 3)
+    calm = rnd.random() < 0.6
+    def enq(cur_prio=None):
+        prios = [0, 0, 0, 1, 2, 5] if calm else [0, 0, 1, -1, -5, 3]
+        return ["enq", "U%d" % rnd.randrange(ncls), rnd.choice(prios), None, sid.next()]
+    handlers = []
+    for c in range(ncls):
+        for _ in range(rnd.randint(1, 2)):
+            handlers.append(dict(cls="U%d" % c, hid=len(handlers), data=None, scripts=[[enq() for _ in range(rnd.choice([0, 0, 1, 1, 2, 3]))] for _ in range(rnd.randint(0, 8))]))
+    init = [enq() for _ in range(rnd.randint(1, 8))]
+    if calm:
+        for a in init: a[2] = rnd.choice([0, 0, 0, 1])
+    return dict(op="machine", mode="flat", width=80, screens=[], handlers=handlers, init=init, stdin=[], quit_cb=None, quit_screen=None, exc_handler=False,
+                run_empty=True, deliver_at=[])
+
+
+def flat_model_case(case):
+    def sig(a): return [int(a[1][1:]), a[2], a[4]]
+    return {"op": "gflat", "steps": 600, "init": [sig(a) for a in case["init"]],
+            "handlers": [{"cls": int(h["cls"][1:]), "hid": h["hid"], "scripts": [[sig(a) for a in sc] for sc in h["scripts"]]} for h in case["handlers"]]}
+
+
 def generate(rnd, tier):
     n = 400 if tier == "quick" else 5000
     sid = SidCounter()
-    cases = []
+    cases = [with_cc(gen_flat(rnd, sid)) for _ in range(n)]
     for _ in range(n):
         c = gen_case(rnd, rnd.choice(["tame", "tame", "app", "loop"]), sid)
         c["deliver_at"] = []          # delivery points are indices into a log that may differ between the loops: deliver only when blocked
@@ -38,8 +62,30 @@ def run_impl(case):
     return main
 
 
-model_case = _s.model_case
-compare = _s.compare
+def model_case(case):
+    return flat_model_case(case) if case.get("mode") == "flat" else _s.model_case(case)
+
+
+def compare(case, impl, model):
+    if case.get("mode") != "flat": return _s.compare(case, impl, model)
+    # both loop disciplines of Model/GLoop.lean against the two real loops: the sequence of dispatched signals (first handler invocation of each)
+    def order(log):
+        out = []
+        for e in log:
+            if e[0] == "H" and (not out or out[-1] != e[2]) and e[2] not in out: out.append(e[2])
+        return out
+    hcls = {h["cls"] for h in case["handlers"]}
+    def observable(ids, case=case):
+        cls_of = {}
+        for a in case["init"]: cls_of[a[4]] = a[1]
+        for h in case["handlers"]:
+            for sc in h["scripts"]:
+                for a in sc: cls_of[a[4]] = a[1]
+        return [i for i in ids if cls_of.get(i) in hcls]
+    if impl["outcome"] == ["fuel"] or impl["glib"]["outcome"] == ["fuel"]: return None
+    if order(impl["log"]) != observable(model["main"]): return "MainLoop dispatched %r, the model's MainLoop discipline %r" % (order(impl["log"])[:12], observable(model["main"])[:12])
+    if order(impl["glib"]["log"]) != observable(model["glib"]): return "GLibEventLoop dispatched %r, the model's GLib discipline %r" % (order(impl["glib"]["log"])[:12], observable(model["glib"])[:12])
+    return None
 
 
 def cut(log, case):
@@ -72,6 +118,7 @@ def monitor(case, obs):
 
 def classify(case, obs, verdict, model):
     if not model: return None
+    if case.get("mode") == "flat": return None if model.get("calm") else "G1"
     nc = model.get("noncalm", [])
     for clause, gid in (("C1-urgent-enqueue", "G1"), ("C3-handler-exception", "G2"), ("C2-close-with-pending", "G3"), ("C4-processing-call-with-pending", "G4")):
         if clause in nc: return gid
